@@ -451,3 +451,95 @@ def impl_attr(gen, key='attr'):
     opts = ssetup.local_node(gen.prog, 'Opts', default_span=Span(('input', 'attr')), no_deps=NONE(), debug=NONE(), export=NONE(),
                              future_send=NONE(), mock_api=NONE(), unimock=NONE(), mockall=NONE())
     return ssetup.local_node(gen.prog, 'EntraitSimpleImplAttr', impl_kind=kind, opts=opts, crate_idents=gen.crate_idents())
+
+
+# ---------------------------------------------------------------------------
+# trait mode
+# ---------------------------------------------------------------------------
+
+def trait_method(gen, key, j, sl):
+    A = gen.A
+    B = gen.B
+
+    def recv(ex, k):
+        return choice(k, [lambda ex2: A.receiver(reference=True),
+                          lambda ex2: A.receiver(reference=True, lifetime=A.lifetime('a')),
+                          lambda ex2: A.receiver(reference=False)], ['&self', "&'a self", 'self'])
+
+    def param(ex, k, jj):
+        pat = choice(k + '.pat', [lambda ex2: A.pat_ident(A.ident(['q1', 'q0', 'q2'][jj % 3])),
+                                  lambda ex2: A.pat_tuple([A.pat_ident(A.ident('ta')), A.pat_ident(A.ident('tb'))]),
+                                  lambda ex2: A.pat_wild()], ['ident', '(a, b)', '_'])
+        return A.enum('FnArg', 'Typed', A.node('PatType', attrs=gen.attrs(k + '.attrs', B.max_param_attrs, nested=True),
+                                               pat=Obj('Box', None, [pat]), ty=Obj('Box', None, [gen.lazy_type(k + '.ty')])))
+    nmax = B.max_params + 1
+    inputs = Sym(key + '.inputs', nmax + 1, lambda ex, i: Punct([recv(ex, f'{key}.inputs[0]') if jj == 0 else param(ex, f'{key}.inputs[{jj}]', jj) for jj in range(i)], 'Comma'),
+                 [f'len={jj}' for jj in range(nmax + 1)])
+    sig = A.node('Signature', constness=NONE(), asyncness=sym_flag(key + '.async', 'Async'), unsafety=NONE(), abi=NONE(),
+                 ident=A.ident(f'm{j}'), generics=gen.generics(key + '.generics'), inputs=inputs, variadic=NONE(),
+                 output=choice(key + '.output', [lambda ex2: A.return_default(), lambda ex2: A.return_type(gen.lazy_type(key + '.ret'))], ['()', '-> T']))
+    default = choice(key + '.default', [lambda ex: NONE(), lambda ex: Some(Obj('Opaque', None, ['block', [('G', '{', [('I', 'todo', 'input'), ('P', '!', 'input'), ('G', '(', [], 'input')], 'input')]]))],
+                     ['required', 'provided'])
+    return A.enum('TraitItem', 'Fn', A.node('TraitItemFn', attrs=gen.attrs(key + '.attrs', B.max_fn_attrs, nested=True), sig=sig, default=default,
+                                              semi_token=NONE()))
+
+
+def trait_item(gen, key, j, sl):
+    A = gen.A
+    alts = [lambda ex: trait_method(gen, key + '.fn', j, sl)]
+    labels = ['fn']
+    if sl.get('assoc_items', True):
+        alts.append(lambda ex: A.enum('TraitItem', 'Type', Obj('Opaque', None, ['assoc-type', [('I', 'type', 'input'), ('I', f'Assoc{j}', 'input'), ('P', ';', 'input')]])))
+        labels.append('type')
+        alts.append(lambda ex: A.enum('TraitItem', 'Const', Obj('Opaque', None, ['assoc-const', [('I', 'const', 'input'), ('I', f'K{j}', 'input'), ('P', ':', 'input'), ('I', 'u32', 'input'), ('P', ';', 'input')]])))
+        labels.append('const')
+    return choice(key, alts, labels)
+
+
+def input_trait(gen, key, sl):
+    A = gen.A
+    B = gen.B
+    # `colon_token` is present exactly when supertraits are written (syn never yields supertraits without the colon)
+    def sup_variant(ex, i):
+        if i == 0:
+            return (NONE(), Punct([], 'Plus'))
+        b = A.bound_lifetime(A.lifetime('static')) if i == 1 else gen.bound('Sup')
+        return (Some(Tok('Colon')), Punct([b], 'Plus'))
+    sup_choice = Sym(key + '.supertraits', 3, lambda ex, i: Obj('tuple', None, list(sup_variant(ex, i))), ['len=0', "'static", 'Sup'])
+    return _item_trait(gen, key, sl, sup_choice)
+
+
+def _item_trait(gen, key, sl, sup_choice):
+    A = gen.A
+    B = gen.B
+    # both fields are projections of one decision
+    colon = Sym(key + '.supertraits', 3, lambda ex, i: sup_choice.gen(ex, i).fields[0], sup_choice.labels)
+    supers = Sym(key + '.supertraits', 3, lambda ex, i: sup_choice.gen(ex, i).fields[1], sup_choice.labels)
+    return A.node('ItemTrait', attrs=gen.attrs(key + '.attrs', B.max_fn_attrs), vis=gen.visibility(key + '.vis'),
+                  unsafety=sym_flag(key + '.unsafe', 'Unsafe') if B.qualifiers else NONE(), auto_token=NONE(), restriction=NONE(),
+                  ident=A.ident(sl.get('trait_name', 'Tr')), generics=gen.generics(key + '.generics'), colon_token=colon,
+                  supertraits=supers,
+                  items=sym_vec(key + '.items', sl.get('max_items', 2), lambda ex, k, j: trait_item(gen, k, j, sl)))
+
+
+def trait_attr(gen, key, sl):
+    A = gen.A
+    sp = Span(('input', 'delegate_by'))
+
+    def so(d):
+        return Some(Obj('SpanOpt', None, [d, sp]))
+    kinds = sl.get('delegation', ('none', 'self', 'ref', 'borrow', 'trait'))
+    table = {
+        'none': lambda ex: NONE(),
+        'self': lambda ex: so(Obj('Delegate', 'BySelf', [])),
+        'ref': lambda ex: so(Obj('Delegate', 'ByRef', [Obj('RefDelegate', 'AsRef', [])])),
+        'borrow': lambda ex: so(Obj('Delegate', 'ByRef', [Obj('RefDelegate', 'Borrow', [])])),
+        'trait': lambda ex: so(Obj('Delegate', 'ByTrait', [A.ident('DelegateTr')])),
+    }
+    dk = choice(key + '.delegate_by', [table[k] for k in kinds], list(kinds))
+    it_alts = sl.get('impl_trait', ('none', 'some'))
+    itab = {'none': lambda ex: NONE(),
+            'some': lambda ex: Some(Obj('ImplTrait', None, [gen.visibility(key + '.impl_trait.vis', ('inherited', 'pub')), A.ident('TrImpl')]))}
+    it = choice(key + '.impl_trait', [itab[k] for k in it_alts], list(it_alts))
+    opts = gen.opts(key + '.opts', sl.get('opts_only', ('unimock', 'mockall', 'mock_api', 'future_send')))
+    return ssetup.local_node(gen.prog, 'EntraitTraitAttr', impl_trait=it, opts=opts, delegation_kind=dk, crate_idents=gen.crate_idents())
